@@ -121,6 +121,71 @@ def run_C01(ctx, proof_ok):
     return run_core(ctx, 1, n, maxlen=budget(ctx.tier, 30, 60))
 
 
+def run_wide_wf(ctx, stream, ncase, maxlen):
+    """search on the real code: C08's well-formedness after every operator of wide programs"""
+    import warnings
+    import wide
+
+    E = epg()
+    r = lib.rng(stream)
+    dist = collections.Counter()
+    errs = collections.Counter()
+    nontriv = set()
+    checked = 0
+    samples = []
+    for i in range(ncase):
+        batch = [None, (2,), (3, 1), (1, 2)][r.integers(4)] if r.random() < 0.4 else None
+        if r.random() < 0.15:
+            case = wide.gen_exchange(r, int(r.integers(1, maxlen + 1)))
+        else:
+            case = wide.gen_wide(r, int(r.integers(1, maxlen + 1)), batch=batch)
+        if i < 2:
+            samples.append(case)
+        dist["mode:" + case["mode"]] += 1
+        dist["batch:" + str(case["batch"])] += 1
+        try:
+            with warnings.catch_warnings():
+                warnings.simplefilter("ignore")
+                if case.get("density"):
+                    sm = E.StateMatrix(density=case["density"], **case["options"])
+                else:
+                    sm = E.StateMatrix(**case["options"])
+                for j, o in enumerate(case["program"]):
+                    op = wide.build_op(o, E)
+                    sm = op(sm, inplace=True)
+                    dist[o["op"]] += 1
+                    checked += 1
+                    v = wide.wf_violations(sm)
+                    if v:
+                        ctx.violations.append({"kind": "wide-wf", "what": v, "op_index": j, "op": o,
+                                               "input": dict(case, program=case["program"][: j + 1])})
+                        break
+            if len({o["op"] for o in case["program"]}) >= 2:
+                nontriv.add(case_hash(case))
+        except Exception as exc:  # crashes are not well-formedness violations (see C07 / C20)
+            errs[type(exc).__name__] += 1
+    return {"evaluations": checked, "distinct_nontrivial": len(nontriv), "samples": samples,
+            "distribution": {"wide": dict(dist), "wide_exceptions": dict(errs)}}
+
+
+def merge_results(a, b, rule):
+    out = dict(a)
+    out["evaluations"] = a["evaluations"] + b["evaluations"]
+    out["distinct_nontrivial"] = a["distinct_nontrivial"] + b["distinct_nontrivial"]
+    out["samples"] = a["samples"][:2] + b["samples"][:2]
+    out["distribution"] = {**a.get("distribution", {}), **b.get("distribution", {})}
+    out["rule"] = rule
+    return out
+
+
+def run_C08(ctx, proof_ok):
+    a = run_core(ctx, 8, budget(ctx.tier, 300, 5000), maxlen=budget(ctx.tier, 30, 60), truncate=True, with_bloch=False)
+    b = run_wide_wf(ctx, 108, budget(ctx.tier, 400, 12000), maxlen=budget(ctx.tier, 14, 30))
+    return merge_results(a, b, a["rule"] + " || wide search: well-formedness clauses of C08 evaluated on the live epgpy "
+                         "StateMatrix after every operator of random programs over ALL operator kinds (1-D/n-D/float shifts, "
+                         "G, C, D, truncation, pruning, batch shapes)")
+
+
 # ---------------------------------------------------------------------------
 # known findings: predicates keyed by finding id (the committed file lists which are active)
 
@@ -177,4 +242,14 @@ PROPS = {
         "partial": ["truncated programs (max_nstate / nmax) are excluded from the theorem: they are the subject of C13"],
     },
 }
+PROPS["C08"] = {
+    "lean_modules": ["EpgVerif.Props.C08"],
+    "tie": TIE_OP,
+    "audit": "EpgVerif/Audit/C08.lean",
+    "run": run_C08,
+    "replay": replay_core,
+    "partial": ["the theorem covers the 1-D state model (T, Phi, E, P, R, 1-D shift with truncation, Spoiler, Reset, PD, Wait); "
+                "n-D / gridded shifts, D and X are covered by the search on the real code only"],
+}
+
 NOT_CLAIMED = {}
